@@ -12,17 +12,23 @@ def exSt : St := { flavor := .t64, now := 1000, listenOnly := false, claimMode :
 def exNode : Node := { s := exSt, tp := fun _ => TpDev.init .t64, slots := List.replicate 5 {}, onlyKnown := false, rxq := [], out := [] }
 def exMsg : Msg := { prio := 6, pgn := 126464, src := 0, dst := 30, len := 20, data := List.range 20, tp := true }
 
-/-- two-device versions of the example node: A (addresses 20, 21) and B (addresses 30, 31); device 0 acts, device 1 is idle -/
-def exDevB : Dev := { exDev with source := 30 }
-def exNodeA : Node := { exNode with s := { exSt with devs := [exDev, { exDev with source := 21, name := 2 }] } }
-def exNodeB : Node := { exNode with s := { exSt with devs := [exDevB, { exDev with source := 31, name := 3 }] } }
+/-- two-device versions of the example node: A (addresses 20, 21) and B (addresses 30, 31); the SECOND device (index 1) of
+each acts - A's device 1 at address 21 sends, B's device 1 at address 31 receives -, device 0 is idle -/
+def exDevA : Dev := { exDev with source := 21, name := 2 }
+def exDevB : Dev := { exDev with source := 31, name := 3 }
+def exNodeA : Node := { exNode with s := { exSt with devs := [exDev, exDevA] } }
+def exNodeB : Node := { exNode with s := { exSt with devs := [{ exDev with source := 30 }, exDevB] } }
 
-theorem exLeadA : Lead exNodeA exDev :=
-  ⟨rfl, fun _ _ => rfl, by intro e he; simp [exNodeA, exSt] at he; rcases he with rfl | rfl <;> decide⟩
-theorem exLeadB : Lead exNodeB exDevB :=
-  ⟨rfl, fun _ _ => rfl, by intro e he; simp [exNodeB, exSt] at he; rcases he with rfl | rfl <;> decide⟩
-theorem exQuietA : Quiet exNodeA.s 0 := ⟨⟨exDev, rfl, by decide, by decide⟩, rfl, rfl, rfl, rfl, rfl, by decide, by decide⟩
-theorem exQuietB : Quiet exNodeB.s 0 := ⟨⟨exDevB, rfl, by decide, by decide⟩, rfl, rfl, rfl, rfl, rfl, by decide, by decide⟩
+theorem exLeadA : Lead exNodeA 1 exDevA :=
+  ⟨rfl, by intro k e hk he; have : k = 0 := by omega
+           subst this; simp [exNodeA, exSt] at he; subst he; decide,
+   fun _ _ => rfl, by intro e he; simp [exNodeA, exSt] at he; rcases he with rfl | rfl <;> decide⟩
+theorem exLeadB : Lead exNodeB 1 exDevB :=
+  ⟨rfl, by intro k e hk he; have : k = 0 := by omega
+           subst this; simp [exNodeB, exSt] at he; subst he; decide,
+   fun _ _ => rfl, by intro e he; simp [exNodeB, exSt] at he; rcases he with rfl | rfl <;> decide⟩
+theorem exQuietA : Quiet exNodeA.s 1 := ⟨⟨exDevA, rfl, by decide, by decide⟩, rfl, rfl, rfl, rfl, rfl, by decide, by decide⟩
+theorem exQuietB : Quiet exNodeB.s 1 := ⟨⟨exDevB, rfl, by decide, by decide⟩, rfl, rfl, rfl, rfl, rfl, by decide, by decide⟩
 
 theorem exQuiet : Quiet exSt 0 :=
   ⟨⟨exDev, rfl, by decide, by decide⟩, rfl, rfl, rfl, rfl, rfl, by decide, by decide⟩
